@@ -6,7 +6,7 @@ for d in ${@:-seeded/C*}; do
   d=${d%/}
   [ -f $d/patch.diff ] || continue
   id=$(basename $d | cut -d- -f1)
-  r=$(tools/seeded_run.sh $d/patch.diff $T $id 2>&1 | tail -1)
+  r=$(tools/seeded_run.sh /verif/$d/patch.diff $T $id 2>&1 | tail -1)
   echo "$(basename $d): $r"
   cp work/seeded-$id.out work/seeded-$(basename $d).out 2>/dev/null
 done
